@@ -98,8 +98,19 @@ PathPrelude == "function FP() return string is begin raise NOPATH; end; function
 PathTexts == {PathPrelude \o kw \o " " \o e \o "; print 1;" : kw \in {"include", "import"}, e \in PathExprs}
              \cup {kw \o " " \o e \o ";" : kw \in {"include", "import"}, e \in PathExprs}
 PathSeq == SetToSeq(PathTexts)
+\* a table changed while it is being traversed: every mutation after (or inside) an inner loop over the same table, over another
+\* table, or a block with a handler -- the lock of the outer traversal must still hold (the table is large enough to be moved by a growth)
+NInner == <<"", "forall F in T loop nop; end loop;", "forall F in T loop break; end loop;", "forall F in T loop forall G in T loop nop; end loop; end loop;",
+            "for K in 1 to 2 loop nop; end loop;", "forall F in U loop nop; end loop;", "begin forall F in T loop raise E1; end loop; exception when E1 then nop; end;",
+            "while N < 0 loop nop; end loop;", "if N >= 0 then forall F in T loop nop; end loop; end if;">>
+NMut == <<"T.concat(9);", "T.delete(0);", "T.insert(0, 9);", "T.put(0, 9);", "T = tab(1, 5);", "E = 7;", "T.concat(T);", "T.concat(U);", "U = T; U.concat(1);", "T.at(0);">>
+NTexts == {"T = tab(40, 1); U = tab(3, 2); N = 0; forall E in T loop " \o NInner[i] \o " " \o NMut[m] \o " N = N + E; end loop; print N T.count();" : i \in DOMAIN NInner, m \in DOMAIN NMut}
+          \cup {"T = tab(40, 1); U = tab(3, 2); N = 0; forall E in T loop forall F in T loop " \o NMut[m] \o " end loop; N = N + E; end loop; print N T.count();" : m \in DOMAIN NMut}
+          \cup {"function FM(A) return undefined is begin forall E in A loop " \o NInner[i] \o " A.concat(9); N = E; end loop; return A.count(); end; T = tab(40, 1); U = T; N = 0; print FM(T);" : i \in DOMAIN NInner}
+NSeq == SetToSeq(NTexts)
 VARIABLE p
 Init == p \in {[k |-> "V", c |-> c] : c \in 0..((Len(ExprSeq) - 1) \div Chunk)}
+              \cup {[k |-> "N", c |-> c] : c \in 0..((Len(NSeq) - 1) \div 10)}
               \cup {[k |-> "P", j |-> j] : j \in DOMAIN PathSeq}
               \cup {[k |-> "E", c |-> c] : c \in 0..((Len(EditSeq) - 1) \div Chunk)}
               \cup {[k |-> "L", c |-> c] : c \in 0..((Len(LineSeq) - 1) \div Chunk)}
@@ -128,6 +139,11 @@ Scenario(q) ==
                        [op |-> "new", ctx |-> 1, trusted |-> TRUE], [op |-> "step", ctx |-> 1, free |-> TRUE, text |-> PathSeq[q.j]],
                        [op |-> "cli", mode |-> "file", free |-> TRUE, text |-> PathSeq[q.j], args |-> <<>>],
                        [op |-> "cli", mode |-> "inter", free |-> TRUE, text |-> PathSeq[q.j] \o "\n", args |-> <<>>] >>]
+    [] q.k = "N" ->
+         LET lo == q.c * 10 + 1  hi == IF lo + 9 > Len(NSeq) THEN Len(NSeq) ELSE lo + 9 IN
+         [prop |-> "C01", key |-> "N",
+          steps |-> Flat([j \in 1..(hi - lo + 1) |-> << [op |-> "exec", ctx |-> 2 * j, free |-> TRUE, text |-> NSeq[lo + j - 1]],
+                                                      [op |-> "step", ctx |-> 2 * j + 1, free |-> TRUE, text |-> NSeq[lo + j - 1]] >>])]
     [] q.k = "B" ->
          LET t == Render(Seeds[q.s]) IN
          [prop |-> "C01", key |-> "B",
